@@ -582,23 +582,41 @@ func checkCC(c ccCase) *vk.Failure {
 			return f
 		}
 	}
-	// documented destinations: CorrsTo accepts len == yd; LeftTo xd×yd, RightTo yd×yd
+	// Destinations: the documentation gives CorrsTo len yd, LeftTo xd×yd and
+	// RightTo yd×yd, which is the number of canonical pairs min(xd, yd) when
+	// xd >= yd. For xd < yd either size convention is accepted, but one of them
+	// has to work (LeftTo/RightTo get an empty dst and size it themselves).
 	var left, right mat.Dense
-	res := vk.Call(func() {
-		cc.CorrsTo(make([]float64, yd))
-		cc.LeftTo(&left, false)
-		cc.RightTo(&right, false)
-	})
-	if res.Outcome != vk.Returned {
-		if xd < yd {
-			return vk.Failf("cca-narrow-x-panics", "xd=%d < yd=%d: CorrsTo(len yd)/LeftTo/RightTo with documented destination sizes: %s %s", xd, yd, res.Text, ctx)
-		}
-		return vk.Failf("cca-destinations", "%s %s", res.Text, ctx)
+	sizes := []int{yd}
+	if k != yd {
+		sizes = append(sizes, k)
 	}
-	if lr, lc := left.Dims(); lr != xd || lc != yd {
+	var lastPanic string
+	worked := false
+	for _, sz := range sizes {
+		res := vk.Call(func() {
+			cc.CorrsTo(make([]float64, sz))
+			left.Reset()
+			right.Reset()
+			cc.LeftTo(&left, false)
+			cc.RightTo(&right, false)
+		})
+		if res.Outcome == vk.Returned {
+			worked = true
+			break
+		}
+		lastPanic = res.Text
+	}
+	if !worked {
+		if xd < yd {
+			return vk.Failf("cca-narrow-x-panics", "xd=%d < yd=%d: CorrsTo(dst)/LeftTo/RightTo panic for len(dst) = yd (documented) and for min(xd,yd): %s %s", xd, yd, lastPanic, ctx)
+		}
+		return vk.Failf("cca-destinations", "%s %s", lastPanic, ctx)
+	}
+	if lr, lc := left.Dims(); lr != xd || (lc != yd && lc != k) {
 		return vk.Failf("cca-left-dims", "%dx%d %s", lr, lc, ctx)
 	}
-	if rr, rc := right.Dims(); rr != yd || rc != yd {
+	if rr, rc := right.Dims(); rr != yd || (rc != yd && rc != k) {
 		return vk.Failf("cca-right-dims", "%dx%d %s", rr, rc, ctx)
 	}
 	// the canonical variables X*a_i and Y*b_i have correlation corrs[i]
